@@ -41,6 +41,18 @@ Record fault_consts := {
   filtering_compiled : bool
 }.
 
+(** the same constants with the re-entrancy guard of error.c removed (the code before repair D9) *)
+Definition unguard (c : fault_consts) : fault_consts :=
+  {| b_af_unix := b_af_unix c; b_sock_dgram := b_sock_dgram c; b_sock_typemask := b_sock_typemask c; b_sock_nonblock := b_sock_nonblock c;
+     b_sock_cloexec := b_sock_cloexec c; b_msg_dontwait := b_msg_dontwait c; b_msg_nosignal := b_msg_nosignal c; b_o_accmode := b_o_accmode c;
+     b_o_wronly := b_o_wronly c; b_o_creat := b_o_creat c; b_o_append := b_o_append c; b_o_nonblock := b_o_nonblock c; b_o_trunc := b_o_trunc c;
+     sock_dom := sock_dom c; sock_ty := sock_ty c; send_flags := send_flags c; sock_path_max := sock_path_max c; file_oflags := file_oflags c;
+     devtty_path := devtty_path c; devnull_path := devnull_path c; devlog_path := devlog_path c; mode_ini := mode_ini c; mode_file := mode_file c;
+     mode_rpname := mode_rpname c; mode_spawns := mode_spawns c; mode_domain := mode_domain c; hosts_path := hosts_path c; file_max := file_max c;
+     file_fread := file_fread c; sp_read := sp_read c; sp_min := sp_min c; sp_comm_max := sp_comm_max c; rp_val_max := rp_val_max c;
+     err_guarded := false; err_msg_len := err_msg_len c; outputs_enabled := outputs_enabled c; datasources_enabled := datasources_enabled c;
+     filters_enabled := filters_enabled c; filtering_compiled := filtering_compiled c |}.
+
 Definition has (bit w : N) : bool := negb (bit =? 0) && (N.land w bit =? bit).
 
 (** what the theorems need from the constants (checked by computation on Gen_Fault) *)
